@@ -142,6 +142,7 @@ class Config:
         self.files = []           # (relpath, content)
         self.env = []             # (name, value)
         self.line_len = None
+        self.subgroup = None      # (key spec, flags, [Arg...]): an argument whose value is another handler (C18)
 
     def builtin_longs(self):
         f, r = self.flags, []
@@ -761,6 +762,13 @@ def scenario_text(sid, tag, cfg, argv, prog="prog", as_string=None):
                 if a.requires:
                     ln += " req=" + hx(";".join(x.refspec(salt="r" + a.slot) for x in a.requires))
         res.append(ln)
+    if cfg.subgroup is not None:
+        res.append("SG %s %d" % (hx(cfg.subgroup[0]), cfg.subgroup[1]))
+        for a in cfg.subgroup[2]:
+            if a.init is not None:
+                res.append("I %s %s" % (a.slot, hx("\x1f".join(a.init) if isinstance(a.init, list) else a.init)))
+            res.append(arg_line(a).rstrip())
+        res.append("SE")
     if getattr(cfg, "arg_file_key", None):
         res.append("AF " + hx(cfg.arg_file_key))
     if cfg.env_name is not None:
